@@ -89,6 +89,9 @@ def increment_blocks(fn):
                     if k is not None and k.get("v") == "1":
                         out.add(bi)
         t = bb["t"]
+        if t["k"] == "call" and (callee_path(t) or "").rsplit("::", 1)[-1] in ("checked_add", "wrapping_add", "overflowing_add", "saturating_add", "strict_add") \
+                and len(t["a"]) == 2 and (op_const(t["a"][1]) or {}).get("v") == "1":
+            out.add(bi)   # `x.checked_add(1)`: the same increment, with the overflow case made explicit
         if t["k"] == "call" and (callee_path(t) or "").endswith("U256Muldiv::add"):
             arg = pv.operand(t["a"][1], bi, len(bb["s"]))
             s = strip(arg)
@@ -406,6 +409,9 @@ def _incremented_terms(fn):
                 elif ka is not None and ka.get("v") == "1":
                     out.append((bi, strip(pv.operand(st["rv"]["b"], bi, si))))
         t = bb["t"]
+        if t["k"] == "call" and (callee_path(t) or "").rsplit("::", 1)[-1] in ("checked_add", "wrapping_add", "overflowing_add", "saturating_add", "strict_add") \
+                and len(t["a"]) == 2 and (op_const(t["a"][1]) or {}).get("v") == "1":
+            out.append((bi, strip(pv.operand(t["a"][0], bi, len(bb["s"])))))
         if t["k"] == "call" and (callee_path(t) or "").endswith("U256Muldiv::add"):
             arg = strip(pv.operand(t["a"][1], bi, len(bb["s"])))
             if arg[0] == "call" and arg[1].endswith("U256Muldiv::new") and [const_val(x) for x in arg[2]] == [0, 1]:
